@@ -6,6 +6,7 @@ open Base
 open C04AsmModel
 open C03Model
 open C04Model
+open C03LeafModel
 
 let b01 b = if b then "1" else "0"
 let cls_of (r : 'a res) : string =
@@ -30,6 +31,18 @@ let top_obs (ts : tree list) : string =
       (Printf.sprintf "%s:%Lu%s" nm sz at) :: go (Int64.add pos sz) r in
   S.concat "," (go 0L ts)
 let n_mdat (ts : tree list) : int = L.length (L.filter (fun t -> name_hex (tname t) = "6d646174") ts)
+
+(* ---- leaf decoder pairs (T lines) *)
+let hexn (n : coq_N) : string = S.lowercase_ascii (hex_of_n n)
+let leaf_fields (v : leafval) : string =
+  match v with
+  | LTrun t ->
+    Printf.sprintf "trun:%d:%s:%d:%s:[%s]" (int_of_n t.tr_version) (hexn t.tr_flags) (int_of_z t.tr_data_offset) (hexn t.tr_first_flags)
+      (S.concat "," (L.map (fun x -> Printf.sprintf "%s.%s.%s.%d" (hexn x.ts_flags) (hexn x.ts_dur) (hexn x.ts_size) (int_of_z x.ts_cto)) t.tr_samples))
+  | LSenc v ->
+    Printf.sprintf "senc:%d:%s:%d:%s:%s:%s" (int_of_n v.se_version) (hexn v.se_flags) (int_of_n v.se_count) (hex_of_bytes v.se_raw)
+      (dec_of_n v.se_read_size) (b01 v.se_unparsed)
+  | LMdat m -> Printf.sprintf "mdat:%s:%s" (hex_of_bytes m.md_data) (b01 m.md_large)
 
 (* ---- shapes *)
 let parse_traf (s : string) : trafshape =
@@ -144,6 +157,16 @@ let () =
           | (r, _) -> cls_of r in
         if m1 = o1 && m2 = o2 then Printf.printf "OK %s\n" id
         else Printf.printf "MISMATCH %s box model_r=%s model_sr=%s\n" id m1 m2
+      | ["T"; id; hex; o1; o2] ->
+        let bs = bytes_of_hex hex in
+        let m1 = match leafbox_r bs with
+          | Ok (v, n) -> Printf.sprintf "ok:%s:S%s:%d" (leaf_fields v) (dec_of_n (leafval_size v)) (int_of_n n)
+          | r -> cls_of r in
+        let m2 = match leafbox_sr bs with
+          | Ok ((v, p), e) -> Printf.sprintf "ok:%s:S%s:%d:%s" (leaf_fields v) (dec_of_n (leafval_size v)) (int_of_z p) (b01 e)
+          | r -> cls_of r in
+        if m1 = o1 && m2 = o2 then Printf.printf "OK %s\n" id
+        else Printf.printf "MISMATCH %s leaf model_r=%s model_sr=%s\n" id m1 m2
       | ["L"; id; hex; o1; o2] ->
         let bs = bytes_of_hex hex in
         (* the byte-level loops deliver the box sequence; the one assembly rule that can reject a sequence of these leaves
